@@ -15,7 +15,7 @@ from .syntax import Syn
 LAZY = {"eager": False, "acts": []}
 EAGER = {"eager": True, "acts": []}
 
-_SWARM = {"neg_step_bias": 0.3, "oob_bias": 0.1}
+_SWARM = {"neg_step_bias": 0.3, "oob_bias": 0.1, "wild_rate": 0.2}
 
 
 class Layout:
